@@ -759,16 +759,21 @@ func ruleLevelStringArms(r *Run, p *Prog, st *ssa.Function, lc map[string]int64)
 // constant stores in the package initialiser and i the counter of a loop that visits all of T:
 // returns the constants stored in T.
 func levelTableContents(p *Prog, f *ssa.Function, v ssa.Value) []int64 {
-	ld, ok := v.(*ssa.UnOp)
-	if !ok || ld.Op != token.MUL {
-		return nil
+	var g *ssa.Global
+	var idx ssa.Value
+	switch x := v.(type) {
+	case *ssa.UnOp: // *&T[i]
+		if ia, ok := x.X.(*ssa.IndexAddr); ok && x.Op == token.MUL {
+			g, _ = ia.X.(*ssa.Global)
+			idx = ia.Index
+		}
+	case *ssa.Index: // (*T)[i]: `for _, l := range T` over an array value
+		if ld, ok := x.X.(*ssa.UnOp); ok && ld.Op == token.MUL {
+			g, _ = ld.X.(*ssa.Global)
+			idx = x.Index
+		}
 	}
-	ia, ok := ld.X.(*ssa.IndexAddr)
-	if !ok {
-		return nil
-	}
-	g, ok := ia.X.(*ssa.Global)
-	if !ok {
+	if g == nil {
 		return nil
 	}
 	arr, ok := derefType(g.Type()).Underlying().(*types.Array)
@@ -776,7 +781,6 @@ func levelTableContents(p *Prog, f *ssa.Function, v ssa.Value) []int64 {
 		return nil
 	}
 	// the loop visits every index: counter from 0 (or -1 in go/ssa's range form) step 1 up to len(T)
-	idx := ia.Index
 	var ph *ssa.Phi
 	rangeForm := false
 	if inc, ok := idx.(*ssa.BinOp); ok && inc.Op == token.ADD {
